@@ -192,7 +192,7 @@ def finish(prop, spec, results, bounded, tier, seed, t0, verbose=False, partial=
     if exit_code == 0 and defects:
         exit_code = 3
         for u, e in defects:
-            lines.append(f'CHECKER-DEFECT property={prop} unit={u}: {e[:2000]}')
+            lines.append(f'CHECKER-DEFECT property={prop} unit={u}: {e[-1500:]}')
     if exit_code == 0 and (undecided or drift):
         exit_code = 2
         for u, e in undecided:
@@ -205,7 +205,7 @@ def finish(prop, spec, results, bounded, tier, seed, t0, verbose=False, partial=
         for u, e in undecided:
             print('  UNDECIDED', u, e[:3000])
         for u, e in defects:
-            print('  DEFECT', u, e[:3000])
+            print("  DEFECT", u, e[-3000:])
 
     # evidence ---------------------------------------------------------------
     level = getattr(spec, 'LEVEL', 'proof')
